@@ -77,8 +77,11 @@ DivI(a, b) == Arith2(ToNum(a), ToNum(b),
                 LAMBDA x, y : IF y.n = 0 THEN DivZero
                               ELSE LET r == Num(x.n * y.d, x.d * y.n) IN IntV(TruncQ(r.n, r.d)))
 \* remainder has the sign of the dividend: a - b * trunc(a / b)
+\* (only integers: engines disagree on the remainder of non-integers -
+\* SQLite casts both operands to INTEGER - and the book does not say)
 Mod(a, b) == Arith2(ToNum(a), ToNum(b),
-                LAMBDA x, y : IF y.n = 0 THEN DivZero
+                LAMBDA x, y : IF x.d # 1 \/ y.d # 1 THEN Undef
+                              ELSE IF y.n = 0 THEN DivZero
                               ELSE LET r == Num(x.n * y.d, x.d * y.n)
                                        q == IntV(TruncQ(r.n, r.d))
                                    IN Sub(x, Mul(y, q)))
